@@ -599,6 +599,24 @@ fn gen_c09(g: &mut G) {
     if bytelevel {
         let dir = if kind == "cfbbuf" { if g.rng.coin() { "enc" } else { "dec" } } else { "ks" };
         g.new_obj("a", f, &kind, dir, 0, iv, json!({"rand":0}), "inner");
+        if let Some(bits) = ctr_bits(&kind) {
+            // the exported state must also be right after a seek (far positions included) and in the middle of a
+            // block (where the core is one block ahead) - checked against the public value, no resumption there
+            if g.rng.chance(1, 3) {
+                let e = g.rng.range(3, (bits as usize).min(100)) as u32;
+                let blk = ((1u128 << e) - 1 - g.rng.below(3) as u128).min(if bits == 128 { u128::MAX >> 8 } else { (1u128 << bits) - 40 });
+                let p = blk * bs as u128 + g.rng.below(bs) as u128;
+                let t = seek_type_for(g, p);
+                g.cmds.push(json!({"op":"seek","o":"a","t":t,"p":p.to_string()}));
+                g.op("export", "a");
+                let n = g.rng.below(2 * bs);
+                g.bytes("a", n, false);
+                g.op("export", "a");
+                g.bytes("a", bs, false);
+                g.op("export", "a");
+                return;
+            }
+        }
         // wrappers are resumed at block boundaries, buffered CFB at any byte
         let k = if kind == "cfbbuf" { g.nbytes(bs, 3) } else { bs * g.rng.range(0, 4) };
         g.sched_bytes("a", k, bs, Some(false), false);
@@ -634,6 +652,13 @@ fn gen_c09(g: &mut G) {
         return;
     }
     g.new_obj("a", f, &kind, dir, 0, iv, json!({"rand":0}), "inner");
+    if kind.ends_with("core") && ctr_bits(&kind).is_some() && g.rng.chance(1, 3) {
+        // a core positioned far into the keystream first
+        let bits = ctr_bits(&kind).unwrap();
+        let e = g.rng.range(3, (bits as usize).min(120) - 1) as u32;
+        g.cmds.push(json!({"op":"setbpos","o":"a","v":((1u128 << e) - 1 - g.rng.below(3) as u128).to_string()}));
+        g.op("export", "a");
+    }
     let k = g.nblocks(w, 5) * mul;
     g.sched_blocks("a", k, w, Some(false), false);
     g.cmds.push(json!({"op":"import","o":"b","from":"a"}));
@@ -642,6 +667,15 @@ fn gen_c09(g: &mut G) {
     g.op("export", "a");
     g.sched_blocks("b", n, w, Some(false), false);
     g.op("export", "b");
+    if g.rng.chance(1, 3) {
+        // a second generation: resume the resumed object
+        g.cmds.push(json!({"op":"import","o":"c","from":"b"}));
+        let m = g.nblocks(w, 3) * mul;
+        g.sched_blocks("b", m, w, Some(false), false);
+        g.op("export", "b");
+        g.sched_blocks("c", m, w, Some(false), false);
+        g.op("export", "c");
+    }
 }
 
 fn seek_type_for(g: &mut G, p: u128) -> &'static str {
